@@ -5,8 +5,8 @@
 //
 // Case line:   x <keep> <runs> <seed> | <obj> <obj> ...
 //
-//	keep  = all | bounds | tags:<k>=<v>|<v>;<k>=          (k= : any value)
-//	obj   = n<id>:<i|o>:<tags> | w<id>:<refs>:<tags> | r<id>:<members>:<tags>
+//	keep  = all | bounds:<minX>,<minY>,<maxX>,<maxY> | tags:<k>=<v>|<v>;<k>=          (k= : any value)
+//	obj   = n<id>:<x>,<y>:<tags> | w<id>:<refs>:<tags> | r<id>:<members>:<tags>     (x = lon, y = lat, integers)
 //	refs  = - | <id>,<id>,...        members = - | n<id>,w<id>,r<id>,...
 //	tags  = - | <k>=<v>;<k>=<v>      (k, v small numbers; rendered as k="k<k>" v="v<v>")
 //
@@ -51,7 +51,7 @@ type ref struct {
 
 type obj struct {
 	ref
-	in   bool
+	x, y int // node position: lon, lat (integer grid; bounds edges pass exactly through nodes)
 	refs []ref
 	tags [][2]int
 }
@@ -72,11 +72,7 @@ func tagsTok(t [][2]int) string {
 func (o obj) tok() string {
 	switch o.kind {
 	case 'n':
-		io := "o"
-		if o.in {
-			io = "i"
-		}
-		return fmt.Sprintf("n%d:%s:%s", o.id, io, tagsTok(o.tags))
+		return fmt.Sprintf("n%d:%d,%d:%s", o.id, o.x, o.y, tagsTok(o.tags))
 	case 'w':
 		s := make([]string, len(o.refs))
 		for i, r := range o.refs {
@@ -126,7 +122,12 @@ func parseObj(t string) obj {
 	o := obj{ref: ref{p[0][0], id}, tags: parseTags(p[2])}
 	switch o.kind {
 	case 'n':
-		o.in = p[1] == "i"
+		xy := strings.Split(p[1], ",")
+		if len(xy) != 2 {
+			panic("bad node position " + t)
+		}
+		o.x, _ = strconv.Atoi(xy[0])
+		o.y, _ = strconv.Atoi(xy[1])
 	case 'w':
 		if p[1] != "-" {
 			for _, s := range strings.Split(p[1], ",") {
@@ -159,19 +160,14 @@ func xmlTags(b *bytes.Buffer, t [][2]int) {
 	}
 }
 
-// buildXML renders the document in file order.  Nodes inside the bounds [0,1]x[0,1] sit at
-// (0.25..0.75), nodes outside at (5..6): away from the box edges (Overlaps ties are C04's business).
+// buildXML renders the document in file order; node positions are small integers (lon = x, lat = y).
 func buildXML(objs []obj) []byte {
 	var b bytes.Buffer
 	b.WriteString(`<?xml version="1.0" encoding="UTF-8"?>` + "\n" + `<osm version="0.6" generator="verif">` + "\n")
 	for _, o := range objs {
 		switch o.kind {
 		case 'n':
-			lat, lon := 5.5, 5.25
-			if o.in {
-				lat, lon = 0.5, 0.25+float64(o.id%3)*0.25
-			}
-			fmt.Fprintf(&b, `<node id="%d" lat="%g" lon="%g" version="1">`, o.id, lat, lon)
+			fmt.Fprintf(&b, `<node id="%d" lat="%d" lon="%d" version="1">`, o.id, o.y, o.x)
 			xmlTags(&b, o.tags)
 			b.WriteString("</node>\n")
 		case 'w':
@@ -199,8 +195,16 @@ func parseKeep(s string) gosm.KeepFunc {
 	switch {
 	case s == "all":
 		return gosm.KeepAll()
-	case s == "bounds":
-		return gosm.KeepBounds(&geom.Bounds{Min: geom.Point{X: 0, Y: 0}, Max: geom.Point{X: 1, Y: 1}})
+	case strings.HasPrefix(s, "bounds:"):
+		var v [4]float64
+		for i, t := range strings.Split(s[7:], ",") {
+			n, err := strconv.Atoi(t)
+			if err != nil || i > 3 {
+				panic("bad bounds " + s)
+			}
+			v[i] = float64(n)
+		}
+		return gosm.KeepBounds(&geom.Bounds{Min: geom.Point{X: v[0], Y: v[1]}, Max: geom.Point{X: v[2], Y: v[3]}})
 	case strings.HasPrefix(s, "tags:"):
 		m := map[string][]string{}
 		for _, kv := range strings.Split(s[5:], ";") {
@@ -442,7 +446,7 @@ func implLine(line string) (res string, fatal bool) {
 	}
 
 	// 3. Filter (tags / all only: KeepBounds does not accept the stored object types)
-	if keepTok != "bounds" {
+	if !strings.HasPrefix(keepTok, "bounds") {
 		all := extractOnce(xmlDoc, gosm.KeepAll(), 1, nil)
 		if all.hang {
 			return "timeout all", true
